@@ -28,6 +28,7 @@ PACKS = {
     "pv2": dict(prefix_verified=2),
     "needrev": dict(parent_factory=True, expand=False, empty_prefix_verified=True),
     "split": dict(split=True),
+    "lazy": dict(lazy=True),
     "oneway": dict(oneway=True, inf=True),
     "onewaysym": dict(oneway=True, inf=True, sym=True),
 }
@@ -51,6 +52,8 @@ def configs(tier: str, seed: int, flavours=("default", "forget", "forest"), pack
             for fl in flavours:
                 if fl == "forest" and PACKS[pk].get("iterative"):
                     continue
+                if fl != "forest" and PACKS[pk].get("lazy"):
+                    continue  # the pruning databases ignore shifts: they presuppose productive strategies
                 for st in stats:
                     if PACKS[pk].get("merge") and st in ("s0", "s1", "s2"):
                         continue
@@ -68,7 +71,17 @@ def configs(tier: str, seed: int, flavours=("default", "forget", "forest"), pack
                 out.append(("", tuple(pats), "abc", stats[0], pk, fl, "mixed", True))
     rnd.shuffle(out)
     if max_n:
-        out = out[:max_n]
+        # configurations that must not be sampled away: the packs that exist for one specific mechanism
+        special = [c for c in out if c[4] in ("lazy", "needrev", "oneway", "onewaysym", "pfactory", "split")]
+        keep = []
+        seen = set()
+        for c in special:
+            k = (c[4], c[5])
+            if k not in seen or len([x for x in keep if (x[4], x[5]) == k]) < 2:
+                seen.add(k)
+                keep.append(c)
+        rest = [c for c in out if c not in keep]
+        out = (keep + rest)[:max(max_n, len(keep))]
     return out
 
 
@@ -137,6 +150,18 @@ def run_one(args):
             max_n = 6 if alph == "ab" else 5
             ev += s.spec_events(spec, max_n=max_n)
             nspecs += 1
+            # asking again without any new rule must give a valid specification again (caches, aliasing)
+            from ..session import _ACTIVE as _ACT
+
+            _ACT.append(s)
+            try:
+                spec_again = s.searcher.get_specification(minimization_time_limit=0) if fl != "forest" else s.searcher.get_specification()
+                ev += s.spec_events(spec_again, max_n=max_n, stages=("final",))
+                nspecs += 1
+            except Exception as e:
+                ev.append({"op": "outcome", "kind": "second-query:" + type(e).__name__})
+            finally:
+                _ACT.pop()
             if fl != "forest" and not pack.iterative:
                 # the 'smallest' option on the same universe
                 from ..session import _ACTIVE
